@@ -743,9 +743,22 @@ where
         // such as reserving/caching per-callsite data, we want the inner subscriber
         // to be able to perform any other registration steps. However, we'll
         // ignore its `Interest`.
-        if !interest.is_never() {
-            self.subscriber.register_callsite(metadata);
-        }
+        let interest = if !interest.is_never() {
+            let inner = self.subscriber.register_callsite(metadata);
+            // The wrapped subscriber's `Interest` cannot disable the callsite
+            // for anyone else. However, `Filtered::enabled` *does* ask the
+            // wrapped subscriber when the filter enables the metadata (it might
+            // have a global filter of its own), so if the wrapped subscriber
+            // is not always interested, `always` would let the macros skip
+            // that check.
+            if interest.is_always() && !inner.is_always() {
+                Interest::sometimes()
+            } else {
+                interest
+            }
+        } else {
+            interest
+        };
 
         // Add our `Interest` to the current sum of per-subscriber filter `Interest`s
         // for this callsite.
